@@ -379,6 +379,34 @@ def one_tree(ctx, mon, cls, boxes, queries):
     mon.registry.pop(id(index), None)
 
 
+def marathon(ctx, mon, rng):
+    """ONE index object queried tens of thousands of times (an occlusion pass asks once per stroke):
+    two clusters far apart, so that most queries prune one of them - per-index counters, visit stamps and
+    scratch buffers must not change any answer."""
+    from plotink import rtree
+    boxes = []
+    for k in range(6):
+        boxes.append(("a%d" % k, (k * 0.5, k * 0.25, k * 0.5 + 1, k * 0.25 + 1)))
+        boxes.append(("b%d" % k, (1000 + k * 0.5, 1000 + k, 1001 + k * 0.5, 1000.5 + k)))
+    n = ctx.budget(65_540, 65_540)
+    before = ctx.violations
+    # cluster a is asked for at the very beginning and then left alone for exactly 2^16-2 / 2^16-1 queries
+    # (one index each): 16-bit query serials, epoch tags and visit stamps come round again exactly there
+    for again_at in (65535, 65536):
+        index = rtree.Index(boxes)
+        for i in range(n):
+            if i == 0 or i >= again_at:
+                query = (-1.0, -1.0, 4.0, 4.0)                      # cluster a
+            else:
+                j = i % 7
+                query = (1000.0 + j * 0.3, 1000.0 + j, 1002.0 + j * 0.3, 1001.0 + j)    # cluster b
+            index.intersection(query)
+            if ctx.violations != before:
+                break
+        mon.registry.pop(id(index), None)
+    ctx.case(["one index, tens of thousands of queries"], ("marathon", n))
+
+
 def two_live_indexes(ctx, mon, rng):
     """Two indexes alive at once, queried alternately: an answer belongs to the index asked."""
     from plotink import rtree
@@ -417,6 +445,8 @@ def run(ctx):
     # generated here (400 levels) fit the interpreter's default budget of 1000 frames on their own
     # but not with the wrappers in between, so the budget is widened by that factor for this process
     sys.setrecursionlimit(max(sys.getrecursionlimit(), 6000))
+    marathon(ctx, mon, rng)
+    ctx.need("one index, tens of thousands of queries", 1)
     for _ in range(ctx.budget(1_500, 20_000)):
         two_live_indexes(ctx, mon, rng)
     ctx.need("history: two live indexes queried alternately", 3000)
